@@ -371,6 +371,12 @@ class SymInt:
         return True
 
 
+# library code may ask isinstance(id, numbers.Integral): a symbolic id is an integer
+import numbers as _numbers
+
+_numbers.Integral.register(SymInt)
+
+
 class SymStr(str):
     """str(SymInt): models exactly one fact - decimal rendering of integers is
     injective.  Equality/hash defer to the wrapped SymInt; int() (through the
